@@ -3,7 +3,7 @@
 From Coq Require Import List Bool Arith ZArith NArith Permutation.
 From XD Require Import lib.ListAux lib.Toposort model.Manager model.ManagerData
   proofs.ManagerIdx proofs.ManagerInv proofs.ManagerHist proofs.ManagerTrace proofs.ManagerDataInv.
-From XD Require Import model.TasksSem gen.GenTasks proofs.TasksSrc.
+From XD Require Import model.TasksSem model.TasksSemData gen.GenTasks gen.GenTasksData proofs.TasksSrc proofs.TasksSrcData.
 Import ListNotations.
 Local Open Scope nat_scope.
 
@@ -82,9 +82,14 @@ Theorem C02_find_taskids_is_source : forall (sd order : list path) (m : dmgr),
   src_find_taskids path_eqb sd order m = find_taskids path_eqb m sd order.
 Proof. exact (src_find_taskids_eq path_eqb). Qed.
 
+Theorem C02_find_tasks_is_source : forall (sd order : list path) (m : dmgr),
+  src_find_tasks path_eqb sd order m = find_tasks path_eqb m sd order.
+Proof. exact src_find_tasks_eq. Qed.
+
 Print Assumptions C02_toposort.
 Print Assumptions C02_find_taskids.
 Print Assumptions C02_assignment.
 Print Assumptions C02_order_dag.
 Print Assumptions C02_nonvacuous.
 Print Assumptions C02_find_taskids_is_source.
+Print Assumptions C02_find_tasks_is_source.
